@@ -149,6 +149,14 @@ func init() {
 	mut("C36", "revert-fix-setmin-validation", dst, "\t\tif !pending || duplicate {\n\t\t\treturn fmt.Errorf(\"failed to save chunk %s\", saveChunkID)\n\t\t}", "\t\t_, _ = pending, duplicate", "SetMin mutates before validating")
 	mut("C09", "revert-fix-sync-finish-replay", "vm/vm.go", "\t\tif err == nil && block.Hght > lastAcceptedHeight {\n\t\t\tisNormalOp = true\n\t\t}", "\t\t_, _ = err, lastAcceptedHeight", "processing blocks re-verified without replay check")
 	mut("C21", "revert-fix-rejections-subtracted", "snow/statesync.go", "\tinvalidBlkIDs.Difference(rejected)\n", "", "blocks rejected during re-verification stay unresolved")
+	fm := "internal/fees/manager.go"
+	mut("C13", "revert-fix-elapsed-clamp", fm, "\tsince := uint64(0)\n\tif currTimeSeconds > lastTimeSeconds {\n\t\tsince = uint64(currTimeSeconds - lastTimeSeconds)\n\t}", "\tsince := uint64(currTimeSeconds - lastTimeSeconds)", "negative elapsed time wraps")
+	mut("C08", "revert-fix-hold", "internal/executor/executor.go", "\tt.dependencies.Add(e.maxDependencies + 1)", "\tt.dependencies.Add(e.maxDependencies)", "hold equals the allowed dependency count")
+	mut("C08", "hold-and-adjust-disagree", "internal/executor/executor.go", "\tdifference := e.maxDependencies + 1 - int64(dependencies.Len())", "\tdifference := e.maxDependencies - int64(dependencies.Len())", "one unit is never released: no task with dependencies ever runs")
+	mut("C37", "revert-fix-verify-upper-bound", dn, "\t\tif chunkCert.Expiry > block.Timestamp+validityWindow {", "\t\tif chunkCert.Expiry > block.Timestamp+validityWindow && block.Height == 0 {", "far-future certificates verify")
+	mut("C37", "revert-fix-build-upper-bound", dn, "chunkCert.Expiry < timestamp || chunkCert.Expiry > timestamp+validityWindow || duplicates.Contains(i)", "chunkCert.Expiry < timestamp || validityWindow < 0 || duplicates.Contains(i)", "builder includes far-future certificates")
+	mut("C20", "revert-fix-parent-lookup", sb, "\tif parent == nil || !parent.accepted || parent.ID() != b.Parent() {", "\tif parent == nil {", "unchecked parent handed to the chain")
+	mut("C20", "revert-fix-build-guard", "snow/vm.go", "\tif !v.ready || !preferredBlk.verified {", "\tif !v.ready {", "build on an unverified preference")
 	mut("C23", "revert-fix-front-order", mp, "\t\t\titem = items[len(items)-1-i]", "\t\t\titem = items[i]", "restored block reversed")
 	mut("C23", "revert-fix-prefetched-after-given", mp, "\t\tm.nextStreamFetched = false\n\t}\n\tm.add(restorable, true)\n\tm.streamLock.Unlock()", "\t\tm.nextStreamFetched = false\n\t}\n\tm.streamLock.Unlock()", "given-back items dropped / wrong order")
 	mut("C23", "revert-fix-lock-order", mp, "\tm.streamLock.Lock()\n\n\tm.mu.Lock()\n\tdefer m.mu.Unlock()\n\n\tm.streamedItems", "\tm.mu.Lock()\n\tdefer m.mu.Unlock()\n\n\tm.streamLock.Lock()\n\tm.streamedItems", "StartStreaming waits for the stream lock holding mu")
